@@ -144,3 +144,27 @@ def pseudo_font_job(tmp):
         lines = ["a\ue000b", "\ue001\ue000", "\ue002a\ue001", "\ue000\ue000c", "b\ue001\ue002\ue000", "\ue002", "c\ue000", "\ue001a\ue001"]
         open(tp, "w", encoding="utf-8").write("\n".join(lines * 2) + "\n")
     return {"font": fp, "file": tp, "dir": 0, "opts": 0, "ppm": 0, "maxlines": 1000, "chunk": 0, "id": "pseudofont:dup"}
+
+
+
+def step_justification_font(tmp):
+    """charis_r_gr.ttf with the step attribute of its first justification level pointed at the break-weight glyph
+    attribute, so that glyphs declare justification steps larger than one design unit (valid, but no shipped font does)."""
+    from fontgen import sfnt
+    p = os.path.join(tmp, "charis_step.ttf")
+    if os.path.exists(p):
+        return p
+    S = sfnt.Sfnt(os.path.join(F, "charis_r_gr.ttf"))
+    t = {k: S.table(k) for k in S.order}
+    silf = bytearray(t["Silf"])
+    ver = int.from_bytes(silf[0:4], "big")
+    q = 4 + (4 if ver >= 0x00030000 else 0)
+    sub = int.from_bytes(silf[q + 4:q + 8], "big")
+    hdr = sub + (8 if ver >= 0x00030000 else 0)
+    abreak, numj = silf[hdr + 15], silf[hdr + 19]
+    if numj == 0:
+        return None
+    silf[hdr + 20 + 2] = abreak
+    t["Silf"] = bytes(silf)
+    open(p, "wb").write(sfnt.build_sfnt(t))
+    return p
